@@ -10,7 +10,13 @@
    What "safe" means in the model: every use of Devices[i] / N2kCANMsgBuf[i] of the C++ passes through chk_dev / chk_slot, which set
    the sticky flag r_oob when the index is outside the array.  r_oob = false at the end of a history therefore says that no such access
    was out of bounds anywhere in the history.  Payload buffers (tN2kMsg::Data[223]) are lists in the model; the bound that keeps the C++
-   inside the array is length (s_data s) <= 223 for every reassembly slot, and length <= 223 for every delivered message. *)
+   inside the array is length (s_data s) <= 223 for every reassembly slot, and length <= 223 for every delivered message.
+   "Does not hang": the loops of the C++ are for-loops over the device/slot arrays, the frame loop of ParseMessages (bounded by
+   MaxReadFramesOnParse, statement 2a) and two loops whose termination is not syntactic, SendFrames and the do-while of GetNextAddress,
+   which the model runs with fuel: statements 2b and 2c say that the fuel is never what stops them.
+   Not expressible in this model and therefore left to the sanitizer build of the correspondence (tools/p_C07.py: AddressSanitizer,
+   UndefinedBehaviorSanitizer, arrays fenced by inaccessible pages): use of freed memory (the library frees nothing), undefined arithmetic
+   (e.g. LastFrame % TPRequireCTS is guarded by TPRequireCTS > 0 in the C++; Z.modulo is total here), reads inside tN2kMsg::Data. *)
 From Coq Require Import ZArith List Bool.
 From N2kV Require Import Base.ListAux Model.CanId Model.Sched Model.PgnClass Model.NodeDefs Model.NodeRxDefs Gen.GenTables Gen.GenConsts Spec.SendSpec.
 Import ListNotations.
